@@ -133,10 +133,21 @@ class CSSParser:
         :returns:
             :class:`~cssutils.css.CSSStyleSheet`.
         """
+        return self.__parseString(
+            cssText, encoding, None, href=href, media=media, title=title, validate=validate
+        )
+
+    def __parseString(
+        self, cssText, encodingOverride, encoding, href, media, title, validate
+    ):
+        """`encodingOverride` as `encoding` in ``parseString``, `encoding`
+        is the encoding found for this sheet only (e.g. via HTTP): it is the
+        sheet's encoding and the fallback for imported sheets but it does not
+        override what is found for these."""
         with self.__parseSetting():
             # TODO: py3 needs bytes here!
             if isinstance(cssText, bytes):
-                cssText = codecs.getdecoder('css')(cssText, encoding=encoding)[0]
+                cssText = codecs.getdecoder('css')(cssText, encoding=encodingOverride)[0]
 
             if validate is None:
                 validate = self._validate
@@ -151,7 +162,8 @@ class CSSParser:
             # tokenizing this ways closes open constructs and adds EOF
             sheet._setCssTextWithEncodingOverride(
                 self.__tokenizer.tokenize(cssText, fullsheet=True),
-                encodingOverride=encoding,
+                encodingOverride=encodingOverride,
+                encoding=encoding,
             )
         return sheet
 
@@ -208,17 +220,24 @@ class CSSParser:
         :returns:
             :class:`~cssutils.css.CSSStyleSheet`.
         """
-        encoding, enctype, text = cssutils.util._readUrl(
+        usedEncoding, enctype, text = cssutils.util._readUrl(
             href, fetcher=self.__fetcher, overrideEncoding=encoding
         )
-        if enctype == 5:
+        if enctype == 0:
+            # only a given encoding overrides the ones of imported sheets
+            encodingOverride, encoding = usedEncoding, None
+        elif enctype == 5:
             # do not use if defaulting to UTF-8
-            encoding = None
+            encodingOverride, encoding = None, None
+        else:
+            # HTTP, BOM or @charset
+            encodingOverride, encoding = None, usedEncoding
 
         if text is not None:
-            return self.parseString(
+            return self.__parseString(
                 text,
-                encoding=encoding,
+                encodingOverride,
+                encoding,
                 href=href,
                 media=media,
                 title=title,
